@@ -44,9 +44,8 @@ func (l *genericFileSessionLoader) Load() (*Session, error) {
 		return nil, err
 	}
 
-	if info.ModTime().Equal(l.lastEdited) && l.cached != nil {
-		return l.cached, nil
-	}
+	// file is always read again: modification time can't tell that file wasn't changed, cause a lot of
+	// filesystems have one second (or worse) resolution of timestamps, so two stores in a row look equal
 
 	data, err := ioutil.ReadFile(l.path)
 	if err != nil {
